@@ -24,6 +24,7 @@ std::string repo_root() {
   const char *e = getenv("ORCSIM_REPO");
   return e ? e : "/repo";
 }
+std::string g_self_exe = "/proc/self/exe";
 std::string verif_root() {
   const char *e = getenv("ORCSIM_VERIF");
   return e ? e : "/verif";
@@ -361,7 +362,7 @@ static bool fresh_replay(const std::string &path, RunResult &r) {
     dup2(p[1], 1);
     int dn = open("/dev/null", O_WRONLY);
     if (dn >= 0) dup2(dn, 2);
-    execl("/proc/self/exe", "orcsim", "exec-plan", path.c_str(), (char *)nullptr);
+    execl(sim::g_self_exe.c_str(), "orcsim", "exec-plan", path.c_str(), (char *)nullptr);
     _exit(127);
   }
   close(p[1]);
@@ -772,6 +773,11 @@ static void usage() {
 
 int main(int argc, char **argv) {
   signal(SIGPIPE, SIG_IGN);
+  {
+    // our own binary, for the helper processes we exec (under Valgrind /proc/self/exe is the tool, not us)
+    char buf[4096];
+    if (argc > 0 && argv[0] && strchr(argv[0], '/') && realpath(argv[0], buf)) sim::g_self_exe = buf;
+  }
   if (argc < 2) { usage(); return 3; }
   std::string cmd = argv[1];
   std::string file;
